@@ -439,6 +439,55 @@ pub fn d_from_acgt_bytes_b_70() {
 pub fn d_from_acgt_bytes_b_31() {
     c_from_acgt_bytes_b::<_, 31>(&mut crate::verif::src::KSrc)
 }
+
+/// BOUNDED (96-base string = 3 words, symbolic contents and position): DnaString::get_kmer and
+/// DnaStringSlice::get_kmer (forward) equal the window of bases, for one k-mer type per instantiation.
+/// Paired counterexample harness for the unbounded Verus contract of get_kmer.
+pub fn c_get_kmer_b<K: crate::verif::kmers::KV, S: Src>(s: &mut S) {
+    let (w, len) = fixed_dna(s, 96);
+    let pos = s.usize();
+    let j = s.usize();
+    s.assume(pos <= 96 - K::KK && j < K::KK);
+    s.cover(pos % 32 != 0 && pos / 32 != (pos + K::KK - 1) / 32);
+    let d = DnaString { storage: w.clone(), len };
+    let k: K = crate::Vmer::get_kmer(&d, pos);
+    chk!(s, crate::verif::kmers::lane(&k, j) == spec_base(&w, pos + j), "DnaString::get_kmer(pos): base j is base pos+j of the string");
+    chk!(s, crate::verif::kmers::inv(&k), "get_kmer keeps unused storage bits zero");
+    let sl = d.slice(0, 96);
+    let k2: K = crate::Vmer::get_kmer(&sl, pos);
+    chk!(s, k2.bits() == k.bits(), "slice get_kmer agrees with the string's");
+}
+
+/// BOUNDED (fixed N): blank(N) is N A's with exactly ceil(N/32) words, equals the string built by pushes, and a
+/// following extend appends after it. Paired counterexample harness for the Verus contract of blank.
+pub fn c_blank_b<S: Src, const N: usize>(s: &mut S) {
+    let mut d = DnaString::blank(N);
+    s.cover(true);
+    chk!(s, d.len == N && view_ok(&d), "blank(n): length n, exactly ceil(n/32) words, zero padding");
+    let mut e = DnaString::new();
+    let mut i = 0;
+    while i < N {
+        e.push(0);
+        i += 1;
+    }
+    chk!(s, d == e, "blank(n) equals the string of n A's built by push");
+    let buf: [u8; 3] = draw_bytes(s, true);
+    d.extend(buf.iter().cloned());
+    chk!(s, d.len == N + 3 && view_ok(&d), "extend after blank keeps the string well formed");
+    let j = s.usize();
+    s.assume(j < 3);
+    chk!(s, spec_base(&d.storage, N + j) == buf[j], "extend after blank appends the items");
+}
+
+harness!(d_get_kmer_b_k64, c_get_kmer_b::<crate::kmer::Kmer64, _>, unwind 40);
+harness!(d_get_kmer_b_k48, c_get_kmer_b::<crate::kmer::Kmer48, _>, unwind 40);
+harness!(d_get_kmer_b_k32, c_get_kmer_b::<crate::kmer::Kmer32, _>, unwind 40);
+harness!(d_get_kmer_b_k20, c_get_kmer_b::<crate::kmer::Kmer20, _>, unwind 40);
+harness!(d_get_kmer_b_k5, c_get_kmer_b::<crate::kmer::Kmer5, _>, unwind 40);
+harness!(d_blank_b_0, c_blank_b::<_, 0>, unwind 40);
+harness!(d_blank_b_32, c_blank_b::<_, 32>, unwind 40);
+harness!(d_blank_b_33, c_blank_b::<_, 33>, unwind 40);
+harness!(d_rc_reverse_b_64, c_rc_reverse_b::<_, 64>, unwind 70);
 harness!(d_count_diff, c_count_diff, unwind 34);
 harness!(d_slice_hamming_1024, c_slice_hamming_1024, unwind 1027);
 // d_slice_hamming_40 (symbolic length) exhausts memory in CBMC 6.11: not registered.
@@ -451,6 +500,15 @@ pub fn replay(name: &str, s: &mut crate::verif::src::RSrc) -> bool {
         "d_extend_b_0_33" => c_extend_b::<_, 0, 33>(s),
         "d_extend_b_32_1" => c_extend_b::<_, 32, 1>(s),
         "d_rc_reverse_b_33" => c_rc_reverse_b::<_, 33>(s),
+        "d_rc_reverse_b_64" => c_rc_reverse_b::<_, 64>(s),
+        "d_get_kmer_b_k64" => c_get_kmer_b::<crate::kmer::Kmer64, _>(s),
+        "d_get_kmer_b_k48" => c_get_kmer_b::<crate::kmer::Kmer48, _>(s),
+        "d_get_kmer_b_k32" => c_get_kmer_b::<crate::kmer::Kmer32, _>(s),
+        "d_get_kmer_b_k20" => c_get_kmer_b::<crate::kmer::Kmer20, _>(s),
+        "d_get_kmer_b_k5" => c_get_kmer_b::<crate::kmer::Kmer5, _>(s),
+        "d_blank_b_0" => c_blank_b::<_, 0>(s),
+        "d_blank_b_32" => c_blank_b::<_, 32>(s),
+        "d_blank_b_33" => c_blank_b::<_, 33>(s),
         "d_to_bytes_b_33" => c_to_bytes_b::<_, 33>(s),
         "d_from_acgt_bytes_b_70" => c_from_acgt_bytes_b::<_, 70>(s),
         "d_from_acgt_bytes_b_31" => c_from_acgt_bytes_b::<_, 31>(s),
